@@ -2324,7 +2324,6 @@ class InstRWInfoTable extends core.Task {
       case "lods@1": return toMap(['MemBaseRW', 'MemBasePostModify']);
       case "stos@0": return toMap(['MemBaseRW', 'MemBasePostModify']);
       case "scas@1": return toMap(['MemBaseRW', 'MemBasePostModify']);
-      case "bndstx@0": return toMap(['MemBaseWrite', 'MemIndexWrite']);
 
       default:
         return {};
